@@ -119,7 +119,7 @@ def main(tier):
     # every grain count: exact cyclic aggregates in rotated frames with two-folds on every other round of copies
     from harness.checks.C02 import size_sweep
 
-    size_sweep(chk, cases, 16384 if quick else 40000, PARS, frames=True, clause_prefix="size-sweep-frame")
+    size_sweep(chk, cases, 16384 if quick else 32768, PARS, frames=True, clause_prefix="size-sweep-frame")
     events, meta = [], {}
     for si, sc in enumerate(scens):
         o0, f0 = pairs.initial(sc, rng)
